@@ -443,6 +443,12 @@ package proxy
 //@   at-call SendLoginPluginMessage as send2: assert [payload-as-received-or-a-one-byte-placeholder-for-an-empty-one] len(arg2) != 0 && (len(msg.Data) != 0 ==> ref(arg2) == ref(msg.Data) && len(arg2) == len(msg.Data)) && (len(msg.Data) == 0 ==> len(arg2) == 1 && arg2[0] == 0)
 //@   at-call SendLoginPluginMessage as send: assert arg0 == r.clientLogin && dyntype(arg3, "proxy.forgeRelayConsumer") && cast(arg3, *forgeRelayConsumer).backendMsgID == msg.ID && cast(arg3, *forgeRelayConsumer).backendConn == backendConn && cast(arg3, *forgeRelayConsumer).relay == r
 
+// (C21) A chat message whose text a subscriber rewrote goes out with the queue-ADJUSTED last-seen record (the one that
+// carries the acknowledgements held back so far), exactly like the untouched message - never with the client's original.
+//@ func (*chatHandler).handleSessionChat$2
+//@   props C21
+//@   at-call ToServer as ts: assert [rewritten-chat-carries-the-adjusted-last-seen] newLastSeenMessages != nil ==> arg0.LastSeenMessages.Offset == newLastSeenMessages.Offset
+
 // ---- C24: early plugin messages are queued (bounded), delivered once, in order ---------------------------------------
 // Configuration phase. A message goes straight to a backend that is ready (false = "caller forwards it"), and only
 // then; otherwise it is appended at the BACK of the queue as a copy, under the lock, while the caps (1024 messages,
